@@ -911,3 +911,65 @@ PROPS["C15"] = {
     "assumptions": ["LogAdd(a,b) is replaced by its summary log(exp a + exp b) (the C02 check discharges that summary against the method bodies)",
                     "floats read as reals; exp/log handled by the exp-homomorphism over atoms E(x)"],
 }
+
+# ----------------------------------------------------------------------------- C16 / C17
+def c16_jobs(tier):
+    jobs = []
+
+    def J(f, a, **kw):
+        jobs.append(dict({"pkg": ZZ, "func": f, "args": a, "mode": "real", "intmode": "int", "summarise_logadd": True}, **kw))
+    for family in range(3):
+        for n in ((1, 2, 3) if tier == "quick" else (1, 2, 3, 4)):
+            for weighted in (0, 1):
+                J("verif_C16_score", [family, n, weighted])
+        for n in (2, 3):
+            if family < 2:
+                J("verif_C16_bounds", [family, n])
+    return jobs
+
+
+PROPS["C16"] = {
+    "overlay": [RT, ("zzverif/c04.go", "zzverif/c04.go"), ("zzverif/c16.go", "zzverif/c16.go")],
+    "patterns": ["./zzverif"],
+    "mode": "real", "intmode": "int",
+    "jobs": c16_jobs,
+    "reach": ["score", "bounds"],
+    "replay_tol": 1e-6,
+    "job_budget_ms": {"quick": 120000, "thorough": 900000},
+    "selftest_vars": [],
+    "bounds": {"quick": "closed-form scalar estimators Normal, Exponential, Poisson on 1..3 symbolic observations with and without symbolic positive weights: the returned parameters satisfy the score equations of the weighted log-likelihood; "
+                        "configured bounds (SigmaMin, LambdaMax) are respected and only active when the unconstrained estimate lies beyond them; single-thread pool; real interpretation, exp-homomorphism, LogAdd summarised",
+               "thorough": "up to 4 observations"},
+    "outside": "EM monotonicity (needs Jensen's inequality, not an identity), the likelihood reported to hooks, numeric estimators, Geometric / Categorical / NegativeBinomial / vector and matrix estimators, batch variants",
+    "assumptions": ["floats read as reals; weights are exp of the log-weights (exp-homomorphism); for these concave families the score equations are equivalent to 'no admissible perturbation increases the likelihood'"],
+}
+
+
+def c17_jobs(tier):
+    jobs = []
+
+    def J(f, a, **kw):
+        jobs.append(dict({"pkg": ZZ, "func": f, "args": a, "mode": "real", "intmode": "int", "summarise_logadd": True}, **kw))
+    for family in range(3):
+        for (n, k) in ([(2, 2), (3, 2), (3, 3), (2, 3)] if tier == "quick" else [(2, 2), (3, 2), (3, 3), (2, 3), (4, 2), (4, 3), (1, 2)]):
+            for weighted in (0, 1):
+                J("verif_C17_pool", [family, n, k, weighted])
+    return jobs
+
+
+PROPS["C17"] = {
+    "overlay": [RT, ("zzverif/c04.go", "zzverif/c04.go"), ("zzverif/c16.go", "zzverif/c16.go")],
+    "patterns": ["./zzverif"],
+    "mode": "real", "intmode": "int",
+    "jobs": c17_jobs,
+    "reach": ["pool"],
+    "replay_tol": 1e-6,
+    "job_budget_ms": {"quick": 120000, "thorough": 900000},
+    "selftest_vars": [],
+    "bounds": {"quick": "Normal, Exponential and Poisson estimators with pools of k = 2, 3 threads (also k > number of jobs) on 2..3 symbolic observations: for every assignment of jobs to threads (symbolic thread ids, one path per assignment) "
+                        "the estimate equals the sequential one as a real identity (sums are associative-commutative there) and no memory cell written by a job is accessed by a job of another thread",
+               "thorough": "4 observations"},
+    "outside": "the Go scheduler and the internals of pbenner/threadpool (goroutines, channels, sync): replaced by the pool's contract; interleavings below job granularity; deadlock freedom; EM / Baum-Welch steps, logistic regression, SAGA",
+    "assumptions": ["thread-pool contract stub: AddJob runs each job exactly once with a ThreadPool whose id is an arbitrary value in [0,k); jobs with equal id never overlap and keep submission order; Wait returns after all jobs of the group",
+                    "sync.Mutex / RWMutex / WaitGroup operations are no-ops under that contract"],
+}
